@@ -143,6 +143,11 @@ def enc_cap(name, a, b, c):
         return 69, struct.pack('!HBB', 1, 1, c) + struct.pack('!HBB', 2, 1, 2), \
             ('add_path', [{'afi_safi': 'ipv4', 'send/receive': {1: 'receive', 2: 'send', 3: 'both'}[c]},
                           {'afi_safi': 'ipv6', 'send/receive': 'send'}], 'extend')
+    if name == 'addpath-same-tuple-twice':
+        # RFC 7911 does not forbid repeating a tuple
+        assume(1 <= c <= 3)
+        return 69, struct.pack('!HBB', 1, 1, c) + struct.pack('!HBB', 1, 1, c), \
+            ('add_path', [{'afi_safi': 'ipv4', 'send/receive': {1: 'receive', 2: 'send', 3: 'both'}[c]}] * 2, 'dups')
     if name == 'extnh':
         assume(0 <= a < 65536 and 0 <= b < 65536)
         return 5, struct.pack('!HHH', a, b, 2), ('ext_nexthop', {'afi_safi': [a, b], 'nexthop_afi': 2}, 'append')
@@ -185,6 +190,8 @@ def ob_open_indep(asn: int, hold: int, a: int, b: int, c: int) -> bool:
             expect.setdefault(key, []).append(ev)
         elif kind == 'extend':
             expect.setdefault(key, []).extend(ev)
+        elif kind == 'dups':
+            expect[key] = None        # once or twice, both readings are fine: it has to terminate and keep the rest
         else:
             expect[str(code)] = None     # value text not compared (repr of bytes)
     if packaging == 'each':
@@ -228,6 +235,13 @@ def obligations(tier, seed):
         for f in comb:
             d[f] = True
         capsets.append(('+'.join(comb) or 'mp-only', d))
+    for comb in subsets:
+        # the configuration stores every known capability with a boolean: the switched-off ones as False / None
+        d = dict(base, cisco_route_refresh=False, route_refresh=False, four_bytes_as=False, enhanced_route_refresh=False,
+                 graceful_restart=False, cisco_multi_session=False, add_path=None)
+        for f in comb:
+            d[f] = True
+        capsets.append((('+'.join(comb) or 'mp-only') + '/explicit-false', d))
     capsets.append(('none', {}))
     capsets.append(('addpath-both', dict(base, add_path='ipv4_both')))
     capsets.append(('addpath-send', dict(base, add_path='ipv4_send', four_bytes_as=True)))
@@ -237,7 +251,7 @@ def obligations(tier, seed):
     capsets.append(('flags-without-mp', {'route_refresh': True, 'four_bytes_as': True}))
     for name, d in capsets:
         for cls in ('small', 'big'):
-            if quick and cls == 'big' and name not in ('none', 'mp-only', 'route_refresh', 'four_bytes_as', 'addpath-both'):
+            if quick and cls == 'big' and name not in ('none', 'mp-only', 'route_refresh', 'four_bytes_as', 'addpath-both', 'mp-only/explicit-false'):
                 continue
             out.append(ob('C14/open-rt/%s/as=%s' % (name, cls), 'ob_open_rt', {'caps': d, 'as_class': cls}, covers=['parsed']))
     for n in range(0, 5):
@@ -275,6 +289,9 @@ def obligations(tier, seed):
                       covers=['parsed']))
         out.append(ob('C14/indep/addpath2+mp+addpath/%s' % pk, 'ob_open_indep',
                       {'caps': ['addpath2', 'mp', 'addpath'], 'packaging': pk, 'ap2': (1, 4)}, covers=['parsed']))
+    for pk in ('each', 'one'):
+        out.append(ob('C14/indep/addpath-same-tuple-twice/%s' % pk, 'ob_open_indep',
+                      {'caps': ['mp', 'addpath-same-tuple-twice', 'rr'], 'packaging': pk}, covers=['parsed']))
     out.append(ob('C14/indep/addpath-two-tuples/each', 'ob_open_indep', {'caps': ['addpath-two-tuples'], 'packaging': 'each'},
                   covers=['parsed']))
     out.append(ob('C14/indep/four/mp-rr-as4-addpath/mixed', 'ob_open_indep',
